@@ -132,6 +132,24 @@ func c05Check(c *caseCtx, g *genReq, d decision) *electreOut {
 		return o
 	}
 	sf := distFn{s.Params.DistA, s.Params.DistB}
+	if ids, sigma, ok := hookCredibility(s); ok {
+		// hook (build tag verif): the credibility matrix itself, before any distillation hides a deviation
+		var mgc margins
+		for i := range alts {
+			for j := range alts {
+				if i == j {
+					continue
+				}
+				want := refCred(crits, alts[i], alts[j], &mgc)
+				if math.Abs(sigma[i][j]-want) > 1e-9 {
+					c.violate("electre-credibility", fmt.Sprintf("credibility of '%s outranks %s' is %v, the definition gives %v", ids[i], ids[j], sigma[i][j], want),
+						M{"request": g.M, "evaluated_on": s})
+					return o
+				}
+			}
+		}
+		c.count("credibility_matrices_checked", 1)
+	}
 	asc, desc, mg := refElectre(crits, alts, sf)
 	if mg.min != 0 && mg.min < 1e-9 {
 		c.fragile()
@@ -275,6 +293,48 @@ func c06Run(c *caseCtx, g *genReq) {
 	if c.idx%2999 == 0 {
 		c.sample(M{"request": g.M, "result": d.View.Result})
 	}
+	// hook (build tag verif): credibility is monotone - if a is at least as good as b everywhere, a outranks any third
+	// alternative at least as credibly as b does, and is outranked at most as credibly
+	if hooksEnabled {
+		tr := decide(body, true)
+		if tr.OK && tr.Trace.Eval != nil && tr.Trace.Eval.Before.Params.OK {
+			if ids, sigma, ok := hookCredibility(&tr.Trace.Eval.Before); ok {
+				pos := map[string]int{}
+				for i, id := range ids {
+					pos[id] = i
+				}
+				for _, a := range ids {
+					va := signedVals(g, a)
+					for _, b := range ids {
+						if a == b {
+							continue
+						}
+						vb := signedVals(g, b)
+						dom := true
+						for i := range va {
+							if va[i] < vb[i] {
+								dom = false
+							}
+						}
+						if !dom {
+							continue
+						}
+						for _, x := range ids {
+							if x == a || x == b {
+								continue
+							}
+							if sigma[pos[a]][pos[x]] < sigma[pos[b]][pos[x]]-1e-12 || sigma[pos[x]][pos[a]] > sigma[pos[x]][pos[b]]+1e-12 {
+								c.violate("credibility-not-monotone", fmt.Sprintf("%s is at least as good as %s on every criterion, but credibility(%s>%s)=%v < credibility(%s>%s)=%v or credibility(%s>%s)=%v > credibility(%s>%s)=%v",
+									a, b, a, x, sigma[pos[a]][pos[x]], b, x, sigma[pos[b]][pos[x]], x, a, sigma[pos[x]][pos[a]], x, b, sigma[pos[x]][pos[b]]), M{"request": g.M})
+								return
+							}
+							c.count("credibility_monotonicity_triples", 1)
+						}
+					}
+				}
+			}
+		}
+	}
 	// (a) dominance, (b) identity
 	for _, a := range o.ids {
 		va := signedVals(g, a)
@@ -395,7 +455,7 @@ func init() {
 			"distinct (#alternatives, #criteria, index maps).",
 		assumptions: []string{"scaling by a power of two is exact in binary floating point, so no tolerance is needed"},
 		streams: []*stream{
-			{name: "vetoDominance", n: tierN(120000, 1500000), unit: 5000, run: c06Veto, floors: map[string]int64{"dominance_pairs": 10000},
+			{name: "vetoDominance", n: tierN(60000, 800000), unit: 5000, run: c06Veto, floors: map[string]int64{"dominance_pairs": 10000},
 				note: "every criterion has q, p and v; a dominated copy is planted in half of the instances"},
 			{name: "relations", n: tierN(20000, 600000), unit: 2500, run: c06Case,
 				floors: map[string]int64{"dominance_pairs": 10000, "identical_pairs": 500, "permutations": 30000, "scalings": 15000}},
